@@ -181,7 +181,7 @@ def specIter (t : Ty) (v : Val) : String :=
 
 def isHistOp (n : String) : Bool :=
   ["begin", "mk", "get", "val", "copy", "set", "setv", "app", "pop", "chg", "obs", "len", "rd",
-   "snap", "chk", "memo", "hcount", "sum", "iter"].contains n
+   "snap", "chk", "memo", "hcount", "sum", "iter", "rset", "rtxt"].contains n
 
 def step (s : HState) (name : String) (args impl : List String) : Except String (HState × String × String) := do
   match name, args with
@@ -374,6 +374,33 @@ def step (s : HState) (name : String) (args impl : List String) : Except String 
           | none => if impl == ["err"] then "ok" else "FAIL:out-of-range-read-accepted"
         | none => "ok"
       return (s, m, verdict)
+  | "rset", h1 :: x :: _ =>
+    -- SetBacking on a byte-vector view: RootView (32 bytes) rewrites itself, others refuse
+    match s.id? h1 with
+    | none => return (s, "nohandle", "ok")
+    | some pid =>
+      let po := s.store[pid]!
+      let bs := (parseHex x).getD []
+      match po.ty with
+      | .bytesN 32 =>
+        let s1 := { s with store := s.store.set! pid { po with node := .leaf (chunkOf bs) } }
+        let (s2, _) := applyVal s1 h1 fun _ => some (.bytes (chunkOf bs))
+        return (s2, "ok", if impl == ["ok"] then "ok" else "FAIL:rootview-setbacking")
+      | .uint _ | .bool | .bytesN _ => return (s, "err", "ok")
+      | _ => return (s, "-", "ok")
+  | "rtxt", h1 :: x :: _ =>
+    match s.id? h1 with
+    | none => return (s, "nohandle", "ok")
+    | some pid =>
+      let po := s.store[pid]!
+      let bs := (parseHex x).getD []
+      match po.ty with
+      | .bytesN k =>
+        if bs.length != k then return (s, "err", "ok") else
+        let s1 := { s with store := s.store.set! pid { po with node := .leaf (chunkOf bs) } }
+        let (s2, _) := applyVal s1 h1 fun _ => some (.bytes bs)
+        return (s2, "ok", if impl == ["ok"] then "ok" else "FAIL:unmarshal-text")
+      | _ => return (s, "err", "ok")
   | "snap", _ => return (s, "ok", if impl == ["ok"] then "ok" else "FAIL:snapshot")
   | "chk", _ => return (s, "ok same", if impl == ["ok", "same"] then "ok" else "FAIL:old-version-changed")
   | "memo", h1 :: _ =>
